@@ -16,7 +16,8 @@ def sh(cmd, **kw):
 
 
 def confirm(P, mut):
-    src = "/tmp/mut/%sc/MUT" % P if os.path.isdir("/tmp/mut/%sc/MUT" % P) and mut == "mutC" else "/tmp/wt/out/%s/%s" % (P, mut)
+    letter = mut[-1].lower()
+    src = "/tmp/mut/%s%s/MUT" % (P, letter) if os.path.isdir("/tmp/mut/%s%s/MUT" % (P, letter)) else "/tmp/wt/out/%s/%s" % (P, mut)
     wt = "/tmp/wt/confirm_%s_%s" % (P, mut)
     os.makedirs("/tmp/wt", exist_ok=True)
     sh("git -C /repo worktree remove --force %s" % wt)
@@ -26,6 +27,8 @@ def confirm(P, mut):
         env = "cd %s && PYTHONPATH=%s /venv/bin/python %s/demo.py" % (wt, wt, src)
         clean = sh(env)
         ap = sh("git -C %s apply %s/patch.diff" % (wt, src))
+        if ap.returncode != 0:
+            print(ap.stderr)
         applied = ap.returncode == 0
         mutated = sh(env) if applied else None
         base = sh("%s/tools/baseline.py %s" % (ROOT, wt)) if applied else None
